@@ -25,7 +25,7 @@ def ex_ufs(repo):
                     s.item(r'^pub struct ScriptStatus'), s.item(r'^pub enum SetScriptsCommand'), s.item(r'^impl Default for SetScriptsCommand'),
                     s.item(r'^pub enum ScriptType', attrs=True)]
     ms = []
-    for name in ['update_filter_scripts', 'is_filter_scripts_empty', 'get_min_filtered_block_number', 'update_min_filtered_block_number',
+    for name in ['update_filter_scripts', 'get_filter_scripts', 'is_filter_scripts_empty', 'get_min_filtered_block_number', 'update_min_filtered_block_number',
                  'clear_matched_blocks', 'update_block_number']:
         m = s.item(r'^    (?:pub )?fn ' + name + r'\b')
         m.sub(r'\.concat\(\)', '.mconcat()', required=False)
